@@ -1,16 +1,17 @@
 (* Scheduler / execution-bound extension of the VM model (properties C11 and C12).
    The functions below are the shared ones of VmDefs.v / VmExec.v (frame_next, do_iter, execute_do,
    start_pass, start_loop, execute) with
-     - two repairs of the time-limit test, each behind a switch (on = the code BEFORE the repair):
-         sw_restart  frame::next() restarted a scope without instructions by itself (frame.h:286-293),
+     - two switches for the two halves of repo commit f22674f (on = the code BEFORE that repair):
+         sw_restart  frame::next() restarted a scope without instructions by itself (frame.h),
                      so `waitUntil {}`, `for ... step 0 do {}` never came back to execute_do and the
                      deadline was never looked at;
          sw_idle     the scheduler loop did not look at the deadline while every script sleeps
-                     (runtime.cpp:382-393);
-       with both switches on the functions are the shared ones (proved in SchedBase.v), with both
-       off they mirror the repaired runtime.cpp / frame.h;
+                     (runtime.cpp action::start);
+       with both switches OFF the functions are the shared ones (proved in SchedEquiv.v); the settings
+       with a switch on exist only for the `_refuted` witnesses of C11;
      - ghost instrumentation that does not influence any result: execute_do counts the instructions
-       it executed and the empty restarts, a scheduler pass logs its visits.
+       it executed and the empty restarts separately (the shared do_iter reports a restart as
+       Executed), a scheduler pass logs its visits.
    No proofs here. *)
 From Coq Require Import String Ascii.
 From Coq Require Import ZArith List Bool.
@@ -33,8 +34,7 @@ Definition abort_run (r:rt) : rt :=
 
 (* ------------------------------------------------------------------ frame::next(runtime)  (frame.h:256) *)
 Inductive fres2 := F2Done | F2Ok | F2Restarted.
-Definition top_code_empty (c:context) : bool :=
-  match c_frames c with f :: _ => match f_code f with [] => true | _ => false end | [] => false end.
+(* top_code_empty: VmDefs.v *)
 
 Fixpoint frame_next2 (old_restart:bool) (fuel:nat) (r:rt) (c:context) : res (fres2 * rt * context) :=
   match fuel with O => Hang "frame::next does not return" | S fuel' =>
